@@ -784,6 +784,19 @@ func ruleC19_2(c *Ctx, r *Rep) {
 	for _, s := range pm["Data"] {
 		r.Check("C19.2", "C19.2:Data-base64", s.Pos(), sources(s.Val)["call:EncodeToString"], "", "the payload is not base64-encoded in the envelope")
 	}
+	// what the pusher is handed: the publish time of the MESSAGE (the delivery row's own published_at is the time the
+	// delivery was created, which for a dead-letter forward is the forwarding time)
+	if fn := r.Anchor("C19.2", fnPullApply); fn != nil {
+		st := fieldStores(fn, modPath+"/actions", "SubscriptionMessageDelivery")["PublishedAt"]
+		ok := len(st) > 0
+		for _, s := range st {
+			src := sources(s.Val)
+			if !(src["field:Message"] && src["field:PublishedAt"]) {
+				ok = false
+			}
+		}
+		r.Check("C19.2", "C19.2:PublishedAt←Message.PublishedAt@applyResults", fn.Pos(), ok, "publish time of the message row", "the publish time handed to the pusher is not the message's published_at (the delivery's copy differs for dead-letter forwards): the envelope's publishTime is not faithful")
+	}
 }
 
 func ruleC19_3(c *Ctx, r *Rep) {
